@@ -113,40 +113,32 @@ def r5_amount(C, rep, rid):
     b = L.body
     prs = pay_request(C)
     for p, d, a in prs:
-        op = None
-        # per-definition analysis of the amount local
-        for bi in sorted(b.reachable):
-            for s in b.blocks[bi]["s"]:
-                if s["k"] == "assign" and s["rv"]["k"] == "agg" and s["rv"].get("adt") == "payment_provider::PaymentRequest":
-                    op = s["rv"]["ops"][s["rv"]["fields"].index("amount_msat")]
-        ro = lib.root_operand(b, op) if op else None
-        if ro is None or ro["k"] not in ("copy", "move") or ro["pl"]["p"]:
+        # every alternative of the amount value, with the variant facts holding where it is produced
+        e = d.get("amount_msat")
+        if e is None:
             rep.ob(rid, False, L.fn, "amount definitions", where=p.loc, detail="cannot resolve the definitions of PaymentRequest.amount_msat")
             continue
-        defs = [dd for dd in b.defs.get(ro["pl"]["l"], []) if not dd[2]]
-        rep.anchor(rid, "definitions of PaymentRequest.amount_msat", len(defs), 2, fn=L.fn)
+        al = mm.alternatives_with_facts(C.F, C.X, e)
+        rep.anchor(rid, "definitions of PaymentRequest.amount_msat", len(al), 2, fn=L.fn)
         seen = set()
-        for dd in defs:
-            e = strip(C.X.rvalue(b, dd[4], (b.cdef, dd[0], ""), 0)) if dd[3] == "rv" else ("unknown", "call")
+        for v0, facts in al:
             st = None
-            for cnd, truth in lib.dominating_conditions(b, dd[0]):
-                if cnd.kind == "enum":
-                    pe = strip(C.X.place(b, cnd.place))
-                    if all(x[0] == "call" and x[1] == "lightning_invoice::Bolt11Invoice::amount_milli_satoshis" and _is_tramp_field(x[2][0], "invoice") for x in alts(pe)):
-                        st = truth
-            where = loc(dd[5])
-            if e[0] == "agg" and e[2] == "None":
+            for pe, truth in facts:
+                if all(x[0] == "call" and x[1] == "lightning_invoice::Bolt11Invoice::amount_milli_satoshis" and _is_tramp_field(x[2][0], "invoice") for x in alts(pe)):
+                    st = truth
+            where = v0[4][2] if v0[0] == "agg" and len(v0[4]) > 2 and v0[4][2] else p.loc
+            if v0[0] == "agg" and v0[2] == "None":
                 ok = st == ("Some",)
                 rep.ob(rid, ok, L.fn, "no amount is passed for fixed-amount invoices", where=where, how="on arm invoice.amount = Some", detail="" if ok else "amount None is used on arm %s" % (st,))
                 seen.add("none")
-            elif e[0] == "agg" and e[2] == "Some":
-                v = e[3][0][1]
+            elif v0[0] == "agg" and v0[2] == "Some":
+                v = v0[3][0][1]
                 ok = st == ("None",) and _is_tramp_field(v, "amount_msat")
                 rep.ob(rid, ok, L.fn, "amountless invoices are paid exactly the declared amount", where=where, how="Some(trampoline.amount_msat) on arm invoice.amount = None",
                        detail="" if ok else "amount Some(%s) is passed on arm invoice.amount=%s" % (show(v)[:60], st))
                 seen.add("some")
             else:
-                rep.ob(rid, False, L.fn, "amount definition shape", where=where, detail="PaymentRequest.amount_msat can be %s" % show(e)[:100])
+                rep.ob(rid, False, L.fn, "amount definition shape", where=where, detail="PaymentRequest.amount_msat can be %s" % show(v0)[:100])
         ok = seen == {"none", "some"}
         rep.ob(rid, ok, L.fn, "both invoice kinds handled", where=p.loc, how=str(sorted(seen)), detail="" if ok else "amount cases handled: %s" % sorted(seen), nontrivial=False)
 
